@@ -9,4 +9,7 @@ Printable == " !?#$%&'()*+,-./0123456789:;<=>?@ABCDEFGHIJKLMNOPQRSTUVWXYZ[?]^_`a
 (* positions 3 and 61 (the double quote and the backslash) are never used  *)
 CharCode(c) == 31 + (CHOOSE i \in (1..95) \ {3, 61} : SubSeq(Printable, i, i) = c)
 B(str) == [i \in 1..Len(str) |-> CharCode(SubSeq(str, i, i))]
+(* and back: bytes -> text (cheap: one SubSeq per byte)                     *)
+CharOf(b) == IF b \in 32..126 THEN SubSeq(Printable, b - 31, b - 31) ELSE "?"
+StrOfBytes(bs) == LET f[i \in 0..Len(bs)] == IF i = 0 THEN "" ELSE f[i-1] \o CharOf(bs[i]) IN f[Len(bs)]
 =============================================================================
